@@ -802,4 +802,57 @@ func main() {
 		}
 		run.Guard("C05/panic", c, func() { runCase(i, c) })
 	}
+	// long histories under a large configured capacity: a value's bucket survives thousands of other values as long
+	// as their number stays below the capacity the rule asks for ("while the configured parameter capacity is not exceeded")
+	caps := [][3]int64{{6000, 1, 4300}, {4500, 1, 4100}, {9000, 2, 8500}, {21000, 10, 20400}, {25000, 3, 12500}, {5000, 1, 4990}}
+	for i := n; i < n+run.N(3, len(caps)); i++ {
+		if run.Skip(i) {
+			continue
+		}
+		k := caps[(i-n)%len(caps)]
+		d := map[string]interface{}{"capacity": k[0], "duration_s": k[1], "other_values": k[2]}
+		run.Begin(i, d)
+		run.Guard("C05/panic", d, func() { largeCapacity(i, k[0], k[1], int(k[2])) })
+	}
+}
+
+func largeCapacity(idx int, capacity, dur int64, others int) {
+	caseNo++
+	res := fmt.Sprintf("c05-cap-%d", caseNo)
+	const T, B = 2, 1
+	hotspot.LoadRulesOfResource(res, []*hotspot.Rule{{ID: "cap", Resource: res, MetricType: hotspot.QPS, ParamIndex: 0, Threshold: T, BurstCount: B,
+		DurationInSec: dur, ParamsMaxCapacity: capacity}})
+	defer hotspot.ClearRulesOfResource(res)
+	clk.SetMs(clk.Ms() + 3600*1000)
+	clk.ResetReads()
+	hit := func(v interface{}) bool {
+		e, b := sentinel.Entry(res, sentinel.WithArgs(v))
+		if b == nil {
+			e.Exit()
+		}
+		return b == nil
+	}
+	got := 0
+	for j := 0; j < T+B+2; j++ {
+		if hit("kept") {
+			got++
+		}
+	}
+	for j := 0; j < others; j++ {
+		hit(j)
+		if j%1000 == 999 {
+			clk.ResetReads()
+		}
+	}
+	clk.ResetReads()
+	for j := 0; j < 3; j++ {
+		if hit("kept") {
+			got++
+		}
+	}
+	if got != T+B {
+		run.Violation("C05/isolation:large-capacity", fmt.Sprintf("reject rule threshold %d burst %d duration %d s, configured parameter capacity %d, frozen clock: value \"kept\" was admitted %d tokens in all (want exactly %d) - %d requests before and 3 after %d other values were seen (fewer than the configured capacity): its bucket was forgotten or never filled", T, B, dur, capacity, got, T+B, T+B+2, others), map[string]interface{}{"case": idx, "capacity": capacity, "duration_s": dur, "other_values": others})
+	}
+	run.Count("large_capacity_histories", 1)
+	run.Distinct(vk.Hash("largecap", capacity, others))
 }
